@@ -338,12 +338,176 @@ def handleInts2 (cmd : String) (xs : List Int) : Option String :=
     | _ => none
   | _ => none
 
+/-! handlers for scaled metrics, gvar fallback, HVAR/VVAR/MVAR lookup, vertical metrics, store bytes -/
+
+def pGlyphKind : P Metrics.GlyphKind := fun r =>
+  match r with
+  | 0 :: r => some (.empty, r)
+  | 1 :: n :: r => if n < 0 then none else some (.simple n.toNat, r)
+  | 2 :: r => match pList pPairNI r with
+    | some (cs, r) => some (.composite (cs.map fun c => (c.1, c.2 != 0)), r)
+    | none => none
+  | 3 :: r => some (.unreadable, r)
+  | _ => none
+
+def pTupleX : P Metrics.TupleX := fun r =>
+  match pInt r with
+  | none => none
+  | some (sc, r) => match pList pPairNI r with
+    | none => none
+    | some (ds, r) => some ((sc, ds), r)
+
+def pRec3 : P (Nat × Nat × Nat) := fun r =>
+  match r with
+  | a :: b :: c :: r => if a < 0 ∨ b < 0 ∨ c < 0 then none else some ((a.toNat, b.toNat, c.toNat), r)
+  | _ => none
+
+def showFixedResult : Metrics.FixedResult → String
+  | .ok b => toString b
+  | .err => "err"
+
+def showOptFV : Option Ieee.FVal → String
+  | none => "none"
+  | some v => v.show
+
+def showOptInt : Option Int → String
+  | none => "none"
+  | some v => toString v
+
+def showRegions (rs : List (List (Int × Int × Int))) : String :=
+  ";".intercalate (rs.map fun r => " ".intercalate (r.map fun a => s!"{a.1},{a.2.1},{a.2.2}"))
+
+def handleInts3 (cmd : String) (xs : List Int) : Option String :=
+  match cmd with
+  | "met.scale32" =>
+    match xs with
+    | [has, bits, upem] =>
+      if bits < 0 ∨ upem < 0 then none else
+      some (toString (Metrics.fixedLinearScale (if has = 1 then some (Ieee.decode Ieee.f32 bits.toNat) else none) upem.toNat))
+    | _ => none
+  | "met.full" =>
+    -- hasPpem ppemBits upem glyphCount gid src a b c d <k>(adv lsb)* <k> lsb*
+    match xs with
+    | has :: bits :: upem :: gc :: gid :: src :: a :: b :: c :: d :: r =>
+      if gc < 0 ∨ gid < 0 ∨ bits < 0 ∨ upem < 0 then none else
+      let scale := Metrics.fixedLinearScale (if has = 1 then some (Ieee.decode Ieee.f32 bits.toNat) else none) upem.toNat
+      match pList pPairII r with
+      | some (hm, r) => match pList pInt r with
+        | some (lsbs, []) =>
+          let (sa, sl) : Metrics.DeltaSrc × Metrics.DeltaSrc :=
+            if src = 1 then (.hvar (if a = 1 then some b else none), .hvar (if c = 1 then some d else none))
+            else if src = 2 then (.gvar (if a = 1 then some (b, c) else none), .gvar (if a = 1 then some (b, c) else none))
+            else (.none, .none)
+          some s!"{showOptFV (Metrics.advanceWidth scale gc.toNat hm gid.toNat sa)} {showOptFV (Metrics.leftSideBearing scale gc.toNat hm lsbs gid.toNat sl)}"
+        | _ => none
+      | none => none
+    | _ => none
+  | "gvar.find" =>
+    match pList pGlyphKind xs with
+    | some (gs, [gid]) => if gid < 0 then none else
+      some (match Metrics.findGlyphAndPointCount gs 70 gid.toNat 0 with
+        | some (g, n) => s!"{g} {n}"
+        | none => "err")
+    | _ => none
+  | "gvar.px" =>
+    match xs with
+    | start :: r => if start < 0 then none else
+      match pList pTupleX r with
+      | some (ts, []) =>
+        let p0 := Metrics.phantomX ts start.toNat 0
+        let p1 := Metrics.phantomX ts start.toNat 1
+        let d := Metrics.gvarMetricDeltas p0 p1
+        some s!"{p0} {p1} {d.1} {d.2}"
+      | _ => none
+    | _ => none
+  | "var.delta" =>
+    -- kind (0 advance_delta, 1 item_delta) <0|1 dsim> <0|1 store> gid coords
+    match xs with
+    | kind :: r =>
+      match pOpt pDsim r with
+      | none => none
+      | some (dsim, r) => match pOpt pStore r with
+        | none => none
+        | some (store, r) => match r with
+          | gid :: r => if gid < 0 then none else
+            match pList pInt r with
+            | some (coords, []) =>
+              if kind = 0 then some (showFixedResult (Metrics.advanceDelta dsim store gid.toNat coords))
+              else if kind = 1 then some (showFixedResult (Metrics.itemDelta dsim store gid.toNat coords))
+              else none
+            | _ => none
+          | _ => none
+    | _ => none
+  | "mvar.delta" =>
+    match pList pRec3 xs with
+    | none => none
+    | some (recs, r) => match pOpt pStore r with
+      | none => none
+      | some (store, r) => match r with
+        | tag :: r => if tag < 0 then none else
+          match pList pInt r with
+          | some (coords, []) => some (showFixedResult (Metrics.mvarMetricDelta recs store tag.toNat coords))
+          | _ => none
+        | _ => none
+  | "vmtx.get" =>
+    match pList pPairII xs with
+    | some (ms, r) => match pList pInt r with
+      | some (bs, [gid]) => if gid < 0 then none else
+        some s!"{showOptInt (Metrics.longAdvance ms gid.toNat)} {showOptInt (Metrics.longSideBearing ms bs gid.toNat)}"
+      | _ => none
+    | none => none
+  | "vorg.y" =>
+    match xs with
+    | dflt :: r => match pList pPairNI r with
+      | some (recs, [gid]) => if gid < 0 then none else some (toString (Metrics.vorgY dflt recs gid.toNat))
+      | _ => none
+    | _ => none
+  | "ivs.bytes" =>
+    -- axisCount store <k> order*  (order: child indices, 0 = region list, k+1 = subtable k, in file order)
+    match xs with
+    | ac :: r => if ac < 0 then none else
+      match pStore r with
+      | some ((regions, subs), r) => match pList pNat r with
+        | some (order, []) =>
+          let child (i : Nat) : Option (List Nat) :=
+            if i = 0 then some (Ivs.regionListBytes ac.toNat regions)
+            else match subs[i - 1]? with
+              | some (some st) => some (Ivs.ivdBytes st)
+              | _ => none
+          match order.mapM child with
+          | some objs => some (toHex (Ivs.storeBytes ac.toNat regions subs objs.eraseDups))
+          | none => none
+        | _ => none
+      | none => none
+    | _ => none
+  | "ivs.parse" =>
+    match pList pNat xs with
+    | some (bytes, []) =>
+      some (match Ivs.parseStore bytes with
+        | none => "err"
+        | some (ac, regions, subs) =>
+          let subs' := subs.map fun st => st.map fun st =>
+            { st with data := st.data.take (Tent.deltaRowLen st.wordDeltaCount st.regionIndexes.length * st.itemCount) }
+          s!"{ac}|{showRegions regions}|{";".intercalate (subs'.map showSub)}")
+    | _ => none
+  | "ivs.directchk" =>
+    match pNat xs with
+    | some (n, r) => match pList (pList pPairNI) r with
+      | some (sets, []) => some (match Ivs.buildDirectChecked n sets with
+          | some b => showBuilt b
+          | none => "trap")
+      | _ => none
+    | none => none
+  | _ => none
+
 def handle (cmd : String) (args : List String) : Option String :=
   match parseInts? args with
   | none => none
   | some xs =>
     match handleInts cmd xs with
     | some r => some r
-    | none => handleInts2 cmd xs
+    | none => match handleInts2 cmd xs with
+      | some r => some r
+      | none => handleInts3 cmd xs
 
 end FontVerif.Drv.C11
